@@ -44,6 +44,11 @@ type nestStruct struct {
 	P *int
 }
 
+// EmbStack / EmbCond embed the library types: they inherit every method (and satisfy the library's interfaces) without
+// being convertible aliases.
+type EmbStack struct{ stackage.Stack }
+type EmbCond struct{ stackage.Condition }
+
 // Awkward is one catalogue entry: a named constructor (fresh value per use).
 type Awkward struct {
 	Name string
@@ -108,6 +113,11 @@ var AwkwardValues = []Awkward{
 	{"70000", func() any { return 70000 }},
 	{"[]any label", func() any { return []any{"AND", []any{}} }},
 	{"Stack holding Stack{}", func() any { return stackage.And().Push(stackage.Stack{}) }},
+	{"(*EmbStack)(nil)", func() any { return (*EmbStack)(nil) }},
+	{"(*EmbCond)(nil)", func() any { return (*EmbCond)(nil) }},
+	{"EmbStack{}", func() any { return EmbStack{} }},
+	{"map[Name]int", func() any { return map[Name]int{"a": 1} }},
+	{"map[any]int", func() any { return map[any]int{"a": 1} }},
 	{"Cond holding (*AStack)(nil)", func() any {
 		var c stackage.Condition
 		c.Init()
@@ -713,6 +723,14 @@ func c08RunElem(c *core.Ctx, n int) {
 			s.IsEqual(aw.New())
 			stackage.Cond("k", stackage.Eq, aw.New()).IsEqual(stackage.Cond("k", stackage.Eq, aw.New()))
 			stackage.Cond("k", stackage.Eq, "v").IsEqual(aw.New())
+			// maps of the same shape whose key types merely share a kind
+			for _, pair := range [][2]any{{map[string]int{"a": 1}, map[Name]int{"a": 1}}, {map[any]int{"a": 1}, map[fmt.Stringer]int{Name("a"): 1}},
+				{map[string]int{"a": 1}, map[string]int64{"a": 1}}, {map[int]string{1: "a"}, map[int64]string{1: "a"}}} {
+				a, b := stackage.List().Push("x", pair[0]), stackage.List().Push("x", pair[1])
+				a.IsEqual(b)
+				b.IsEqual(a)
+				stackage.Cond("k", stackage.Eq, pair[0]).IsEqual(stackage.Cond("k", stackage.Eq, pair[1]))
+			}
 			// same-shaped comparands of different struct types (embedded private against embedded public field)
 			for _, pair := range [][2]any{{embPriv{privEmb{1}, 2}, embPub{PubEmb{1}, 2}}, {&embPriv{privEmb{1}, 2}, &embPub{PubEmb{1}, 2}}, {aw.New(), embPub{PubEmb{1}, 2}}} {
 				a, b := stackage.And().Push(pair[0]), stackage.And().Push(pair[1])
